@@ -61,6 +61,7 @@ static long stepno, refused_r, refused_w, refused_r_midline;
 static int flags, lf_count, in_probe, activity, midline;
 static int mtx_on, lockn, unlockn, lockfail[MAXFAIL], nlockfail, unlockfail[MAXFAIL], nunlockfail, locked;
 static int last_refused_byte = -1;
+static int in_service;
 static long world_violations;
 static char world_violation_text[256];
 
@@ -328,64 +329,64 @@ static void do_act(int kind, int a1, int a2, const uint8_t *a3, size_t a3len)
                         bracket_begin("trig_read");
                         r = cat_trigger_unsolicited_read(at, &cmds[a1]);
                         bracket_end("trig_read", r);
-                        emit("A %ld trig %d 0 %d\n", stepno, a1, r);
+                        emit("%c %ld trig %d 0 %d\n", in_service ? 'a' : 'A', stepno, a1, r);
                 } else if (a2 == 3) {
                         bracket_begin("trig_test");
                         r = cat_trigger_unsolicited_test(at, &cmds[a1]);
                         bracket_end("trig_test", r);
-                        emit("A %ld trig %d 1 %d\n", stepno, a1, r);
+                        emit("%c %ld trig %d 1 %d\n", in_service ? 'a' : 'A', stepno, a1, r);
                 } else {
                         bracket_begin("trig_event");
                         r = cat_trigger_unsolicited_event(at, &cmds[a1], a2 ? CAT_CMD_TYPE_TEST : CAT_CMD_TYPE_READ);
                         bracket_end("trig_event", r);
-                        emit("A %ld trig %d %d %d\n", stepno, a1, a2 ? 1 : 0, r);
+                        emit("%c %ld trig %d %d %d\n", in_service ? 'a' : 'A', stepno, a1, a2 ? 1 : 0, r);
                 }
                 break;
         case WA_HOLDEXIT:
                 bracket_begin("hold_exit");
                 r = cat_hold_exit(at, a1 ? CAT_STATUS_ERROR : CAT_STATUS_OK);
                 bracket_end("hold_exit", r);
-                emit("A %ld holdexit %d %d\n", stepno, a1 ? 1 : 0, r);
+                emit("%c %ld holdexit %d %d\n", in_service ? 'a' : 'A', stepno, a1 ? 1 : 0, r);
                 break;
         case WA_ISFULL:
                 bracket_begin("is_full");
                 r = cat_is_unsolicited_buffer_full(at);
                 bracket_end("is_full", r);
-                emit("A %ld isfull %d\n", stepno, r);
+                emit("%c %ld isfull %d\n", in_service ? 'a' : 'A', stepno, r);
                 break;
         case WA_ISBUFFERED:
                 if (a1 < 0 || a1 >= ncmd)
                         return;
                 r = cat_is_unsolicited_event_buffered(at, &cmds[a1], (cat_cmd_type)a2);
-                emit("A %ld isbuf %d %d %d\n", stepno, a1, a2, r);
+                emit("%c %ld isbuf %d %d %d\n", in_service ? 'a' : 'A', stepno, a1, a2, r);
                 break;
         case WA_GETPROCESSED:
                 pc = cat_get_processed_command(at, a1 ? CAT_FSM_TYPE_UNSOLICITED : CAT_FSM_TYPE_ATCMD);
-                emit("A %ld getproc %d %d\n", stepno, a1 ? 1 : 0, pc ? (int)(pc - cmds) : -1);
+                emit("%c %ld getproc %d %d\n", in_service ? 'a' : 'A', stepno, a1 ? 1 : 0, pc ? (int)(pc - cmds) : -1);
                 break;
         case WA_ISBUSY:
                 bracket_begin("is_busy");
                 r = cat_is_busy(at);
                 bracket_end("is_busy", r);
-                emit("A %ld isbusy %d\n", stepno, r);
+                emit("%c %ld isbusy %d\n", in_service ? 'a' : 'A', stepno, r);
                 break;
         case WA_ISHOLD:
                 bracket_begin("is_hold");
                 r = cat_is_hold(at);
                 bracket_end("is_hold", r);
-                emit("A %ld ishold %d\n", stepno, r);
+                emit("%c %ld ishold %d\n", in_service ? 'a' : 'A', stepno, r);
                 break;
         case WA_SETDIS:
                 if (a1 < 0 || a1 >= ncmd)
                         return;
                 cmds[a1].disable = a2 ? true : false;
-                emit("A %ld setdis %d %d\n", stepno, a1, a2 ? 1 : 0);
+                emit("%c %ld setdis %d %d\n", in_service ? 'a' : 'A', stepno, a1, a2 ? 1 : 0);
                 break;
         case WA_SETGDIS:
                 if (a1 < 0 || a1 >= ngrp)
                         return;
                 groups[a1].disable = a2 ? true : false;
-                emit("A %ld setgdis %d %d\n", stepno, a1, a2 ? 1 : 0);
+                emit("%c %ld setgdis %d %d\n", in_service ? 'a' : 'A', stepno, a1, a2 ? 1 : 0);
                 break;
         case WA_POKE:
                 if (a1 < 0 || a1 >= ncmd || a2 < 0 || a2 >= wc[a1].nvar)
@@ -396,7 +397,7 @@ static void do_act(int kind, int a1, int a2, const uint8_t *a3, size_t a3len)
                                 n = a3len;
                         memcpy(vars[a1][a2].data, a3, n);
                         memcpy(wc[a1].var[a2].shadow, vars[a1][a2].data, vars[a1][a2].data_size);
-                        emit("A %ld poke %d %d ", stepno, a1, a2);
+                        emit("%c %ld poke %d %d ", in_service ? 'a' : 'A', stepno, a1, a2);
                         hexout(vars[a1][a2].data, vars[a1][a2].data_size);
                         emit("\n");
                 }
@@ -610,6 +611,7 @@ void w_reset(void)
         mtx_on = lockn = unlockn = nlockfail = nunlockfail = locked = 0;
         refused_r = refused_w = refused_r_midline = 0;
         lf_count = in_probe = activity = midline = 0;
+        in_service = 0;
         last_refused_byte = -1;
         free(at);
         at = NULL;
@@ -842,7 +844,9 @@ static int service_call(void)
 {
         int s;
         bracket_begin("service");
+        in_service = 1;
         s = cat_service(at);
+        in_service = 0;
         bracket_end("service", s);
         return s;
 }
